@@ -8,7 +8,7 @@ WT=/tmp/mutcheck/confirm-wt
 FEAT="--no-default-features --features allow_filesystem,collisions,stroke_planning"
 export CARGO_TARGET_DIR=/tmp/mut/target-shared CARGO_NET_OFFLINE=true
 if [ ! -d "$WT" ]; then git -C /repo worktree add -q --detach "$WT" HEAD || exit 2; fi
-git -C "$WT" checkout -q --detach "$(git -C /repo rev-parse HEAD)"; git -C "$WT" checkout -q -- .; git -C "$WT" clean -fdq
+git -C "$WT" reset -q --hard >/dev/null 2>&1; git -C "$WT" checkout -q --detach "$(git -C /repo rev-parse HEAD)"; git -C "$WT" reset -q --hard; git -C "$WT" clean -fdq
 mkdir -p "$WT/tests"
 DEMOS=$(cd "$D" && ls demo_*.rs 2>/dev/null)
 [ -z "$DEMOS" ] && { echo "no demo_*.rs in $D"; exit 2; }
